@@ -680,6 +680,13 @@ func (ck *checker) check(c c08Case) (kind, msg string) {
 	if v.msg != "" {
 		return v.kind, v.msg
 	}
+	// outside-independence: what a context requiring iosafe lets Lua observe
+	// must not depend on the state of the sentinel directory
+	if c.Flags&flagIO != 0 && nref < len(c.Calls) {
+		if msg := ck.outsideIndependence(c, o); msg != "" {
+			return "iosafe-outside-dependence", msg
+		}
+	}
 	// non-trivial: some call's tuple is effectful when unrestricted
 	nontrivial := false
 	if c.Flags != 0 {
@@ -742,6 +749,43 @@ func (ck *checker) check(c c08Case) (kind, msg string) {
 		rec.Sample(map[string]any{"flags": flagSet(c.Flags), "calls": c.Calls, "refused": v.refused, "events": trimEvents(o.Events)})
 	}
 	return "", ""
+}
+
+// obsLua is everything the Lua side of a run could observe.
+func obsLua(o *obs) string {
+	return strings.Join(o.Events, "\n") + "\nerr=" + o.Err + "\nouter=" + o.OuterStatus + "\npanic=" + o.Panic
+}
+
+// outsideIndependence re-runs an iosafe case with every sentinel file removed:
+// code that has no access to the outside cannot tell the difference. A
+// difference is only reported when both worlds reproduce their own outcome on
+// a second run (clock values, addresses and random names vary by themselves).
+func (ck *checker) outsideIndependence(c c08Case, o *obs) string {
+	for _, k := range c.Calls {
+		// this function value is fetched by the case's unrestricted prologue
+		// from the sentinel directory itself: the prologue, not the context,
+		// would see the difference
+		if strings.Contains(k.Fetch, "searchers[2](") {
+			ck.rec.Class("relation/outside-independence/not-applicable-prologue-reads-sentinel")
+			return ""
+		}
+	}
+	a1 :=ck.w.runCaseAbsent(c, false)
+	ck.rec.Class("relation/outside-independence/compared")
+	if obsLua(a1) == obsLua(o) {
+		return ""
+	}
+	p2 := ck.run(c)
+	a2 := ck.w.runCaseAbsent(c, false)
+	if obsLua(p2) != obsLua(o) || obsLua(a2) != obsLua(a1) {
+		ck.rec.Class("relation/outside-independence/varies-by-itself-not-judged")
+		return ""
+	}
+	msg := fmt.Sprintf("the context requires iosafe, yet what Lua observes depends on whether the sentinel files exist\n  context flags %s; calls:", flagSet(c.Flags))
+	for _, k := range c.Calls {
+		msg += fmt.Sprintf("\n    %s(%s) spelled %s", k.Fn, k.Args, k.Spell)
+	}
+	return msg + "\n  observed with the files present:\n" + o.String() + "  observed with the files removed:\n" + a1.String()
 }
 
 func trimEvents(ev []string) []string {
